@@ -40,6 +40,56 @@ BLOCK_SHAPES = ["/**/", "/***/", "/****/", "/* x **/", "/** doc **/", "/*/*/", "
 MULTILINE_SHAPES = ["/*\n*/", "/* a\n * b\n **/", "/*\n//\n*/"]
 LINE_SHAPES = ["//", "//*", "// é", "// /*", "///", "//*/", "// \"", "//**/ x"]
 
+# Comments whose CONTENT looks like code.  A consumer that reads the raw source
+# instead of the pre-processed text (a version check by regular expression, an
+# include scanner, a duplicate-definition or main-component detector) would see
+# them.  For every one of them the metamorphic oracle demands the same thing —
+# findings(F) == findings(F with the comment replaced by blanks of the same
+# length), positions included, and == findings(F without the comment) — and the
+# second column says what a violation would look like for this payload.
+PAYLOADS = [
+    ("pragma circom 9.9.9;", "not a version pragma: no `requires version 9.9.9` error; the file's own pragma decides, and a "
+                             "file whose only pragma is in a comment gets the `no version pragma` warning"),
+    ("pragma circom 2.0.0;", "not a version pragma either: a file without a real pragma keeps its `no version pragma` warning"),
+    ("pragma custom_templates;", "custom gates are not switched on by a comment"),
+    ("include \"nonexistent.circom\";", "not an include: no `file not found` error, no other file is read"),
+    ("component main = X();", "not a main component: no `multiple main components` / undefined template error, and a "
+                              "library file stays a library"),
+    ("component main = T(3);", "same, with an existing template: the main component and its arguments are unchanged"),
+    ("template Dup() {}", "not a definition: nothing is analysed that the file does not define"),
+    ("template T(n) {}", "not a second definition of T: no duplicate-definition error"),
+    ("signal input a; b <-- a;", "commented-out code yields no findings"),
+    ("\"", "an odd number of quotes inside a comment does not start a string literal"),
+    ("log(\"a // b\");", "quotes and `//` inside a comment are comment text"),
+]
+PAYLOAD_BLOCK = ["/* %s */" % t for t, _ in PAYLOADS] + ["/** %s **/" % PAYLOADS[0][0], "/*%s*/" % PAYLOADS[3][0]]
+PAYLOAD_LINE = ["// %s" % t for t, _ in PAYLOADS] + ["//%s" % PAYLOADS[0][0], "/// %s" % PAYLOADS[4][0]]
+# block comments closed by runs of stars of both parities, alone and adjacent
+STAR_SHAPES = ["/*****/", "/******/", "/* x ***/", "/* x ****/", "/**//**/", "/***//***/", "/****//**/", "/**/ /***/",
+               "/*/**/", "/*//*/", "/* * / */", "/*/ **/"]
+BLOCK_SHAPES = BLOCK_SHAPES + STAR_SHAPES + PAYLOAD_BLOCK
+LINE_SHAPES = LINE_SHAPES + PAYLOAD_LINE
+
+# Code lines with comment openers / closers INSIDE STRING LITERALS.  String
+# literals are not special for the comment lexer (Spec.LexSpec, DESIGN §4 C05 —
+# as in the code and in Circom's own pre-processor), so "the comment" is what
+# the reference lexer says it is; the oracle is again findings(F) ==
+# findings(F with that comment blanked), whatever F parses to (the first three
+# lines still parse, the others give the same parse error at the same position
+# in both files).
+STRING_LINES = [
+    'log("a /* b */ c");',
+    'log("/**/");',
+    'log("a /** b **/ c", n);',
+    'log("a // b");',
+    'log("//");',
+    'log("a // b", n); // c',
+    'log("a */ b");',
+    'log("x/*y"); /* z */',
+    'log("x/*y", n); /** z **/ b === a;',
+    'log("x/*y");',
+]
+
 
 # --------------------------------------------------------------------------
 # stripper level
@@ -314,6 +364,51 @@ def blank_file(text, per_scalar):
     return "".join(out)
 
 
+def py_comments(text):
+    """The comments of `text` as spans (kind, start, end, closed), end exclusive,
+    kind '/' (line) or '*' (block); same lexer as py_comment_mask, written as a
+    span list (adjacent comments stay separate)."""
+    n = len(text)
+    spans = []
+    i = 0
+    while i < n:
+        if text.startswith("//", i):
+            j = text.find("\n", i)
+            j = n if j < 0 else j
+            spans.append(("/", i, j, True))
+            i = j
+        elif text.startswith("/*", i):
+            j = text.find("*/", i + 2)
+            if j < 0:
+                spans.append(("*", i, n, False))
+                i = n
+            else:
+                spans.append(("*", i, j + 2, True))
+                i = j + 2
+        else:
+            i += 1
+    return spans
+
+
+OVERWRITE = " ".join(t for t, _ in PAYLOADS if "/" not in t and "*" not in t) + " "
+
+
+def overwrite_comments(text, rng):
+    """Another file with the SAME comment-lexer image: the interior of every
+    comment (openers, closers, line breaks and non-ASCII scalars stay) is
+    overwritten with code-like text that contains neither `/` nor `*`, so no
+    comment ends earlier or later and every byte length is unchanged."""
+    out = list(text)
+    for kind, a, b, closed in py_comments(text):
+        lo, hi = a + 2, (b - 2 if kind == "*" and closed else b)
+        k = rng.randrange(len(OVERWRITE))
+        for i in range(lo, hi):
+            if ord(out[i]) < 128 and out[i] not in "\n\r":
+                out[i] = OVERWRITE[k % len(OVERWRITE)]
+                k += 1
+    return "".join(out)
+
+
 def run_cli(cli, workdir, name, text):
     path = os.path.join(workdir, name + ".circom")
     sarif = os.path.join(workdir, name + ".sarif")
@@ -380,9 +475,27 @@ def e2e_case(cli, workdir, rng_seed, idx):
     f_mid = "/** doc **/ " + render(lines, between=between, eol=eol2)
     if idx % 2 == 0:
         f_mid += rng.choice(["// end", "//", "/* end */", "/**/"])    # comment at end of file without newline
+    # (3) code-like payloads, deterministically: EVERY line gets a payload comment
+    # (rotating with the template index, so that every payload meets every kind of
+    # line over a run).  idx % 3 == 0: the file has NO version pragma, only one in
+    # a line comment where the pragma would be; idx % 3 == 1: a commented-out
+    # `pragma circom 9.9.9;` stands in front of the real pragma on the same line.
+    pay_all = PAYLOAD_LINE + PAYLOAD_BLOCK
+    plines = list(lines)
+    head = ""
+    if idx % 3 == 0:
+        plines[0] = []
+    elif idx % 3 == 1:
+        head = "/* pragma circom 9.9.9; */ "
+    pay_eol = {i: pay_all[(i + idx) % len(pay_all)] for i in range(len(plines))}
+    if idx % 3 == 0:
+        pay_eol[0] = "// pragma circom %s;" % ("9.9.9" if idx % 2 else "2.0.0")
+    f_pay = head + render(plines, eol=pay_eol)
+    f_pay_base = render(plines)
     runs = {"base": base, "eol": f_eol, "mid": f_mid,
             "eol_blank": blank_file(f_eol, True), "eol_blank_bytes": blank_file(f_eol, False),
-            "mid_blank": blank_file(f_mid, True), "mid_blank_bytes": blank_file(f_mid, False)}
+            "mid_blank": blank_file(f_mid, True), "mid_blank_bytes": blank_file(f_mid, False),
+            "pay": f_pay, "pay_blank": blank_file(f_pay, True), "pay_base": f_pay_base}
     res = {k: run_cli(cli, workdir, "t%d_%s" % (idx, k), v) for k, v in runs.items()}
     problems = []
 
@@ -398,6 +511,14 @@ def e2e_case(cli, workdir, rng_seed, idx):
     same("mid", "mid_blank", 2, "comments replaced by one blank per character: same findings, same positions")
     same("mid", "mid_blank_bytes", 2 if ascii_only(f_mid) else 1,
          "comments replaced by one blank per byte: same findings, same lines (columns too when the comments are ASCII)")
+    same("pay", "pay_blank", 2, "comments that contain code-like text (pragma, include, main component, template, quotes) "
+                                "replaced by blanks: same findings, same positions")
+    if head:
+        same("pay_base", "pay", 1, "comments that contain code-like text added to a file (one of them in front of the pragma): "
+                                   "same findings, same lines")
+    else:
+        same("pay_base", "pay", 2, "comments that contain code-like text appended to the lines of a file do not change its "
+                                   "findings or positions")
     for k, r in res.items():
         if r["panic"] or r["findings"] is None:
             problems.append({"relation": "the tool ran to completion and wrote its SARIF file", "left": k, "left_text": runs[k],
@@ -431,6 +552,171 @@ def e2e_unclosed(cli, workdir, rng, idx):
         problems.append({"relation": "a block comment that is never closed is reported as an error",
                          "left": "unclosed", "left_text": text, "left_findings": proj(res, 2)})
     return {"idx": idx, "problems": problems}
+
+
+def e2e_strings(cli, workdir, rng_seed, idx):
+    """Comment openers inside string literals of the code (STRING_LINES): the
+    comment is what the (string-unaware) reference lexer says; blanking it must
+    leave the findings — or the parse error and its position — unchanged.  A
+    `/*` inside a string with no `*/` after it is an unclosed comment."""
+    import random
+    rng = random.Random(rng_seed)
+    lines = gen_template(rng, idx)
+    body_start = next(i for i, l in enumerate(lines) if l[:1] == ["template"]) + 1
+    at = rng.randrange(body_start, len(lines) - (2 if lines[-1][:1] == ["component"] else 1) + 1)
+    sl = STRING_LINES[idx % len(STRING_LINES)]
+    text = render(lines[:at]) + sl + "\n" + render(lines[at:])
+    problems = []
+    spans = py_comments(text)
+    runs = {"str": text}
+    if all(c for _, _, _, c in spans):
+        runs["str_blank"] = blank_file(text, True)
+    res = {k: run_cli(cli, workdir, "s%d_%s" % (idx, k), v) for k, v in runs.items()}
+    if "str_blank" in runs:
+        if proj(res["str"], 2) != proj(res["str_blank"], 2):
+            problems.append({"relation": "a comment opened inside a string literal (string literals are not special for the comment "
+                                         "lexer) replaced by blanks: same findings or same parse error, same positions",
+                             "left": "str", "right": "str_blank", "left_text": text, "right_text": runs["str_blank"],
+                             "left_findings": proj(res["str"], 2), "right_findings": proj(res["str_blank"], 2)})
+    else:
+        off = spans[-1][1]
+        line = text.count("\n", 0, off) + 1
+        col = off - (text.rfind("\n", 0, off) + 1) + 1
+        hit = [f for f in res["str"]["findings"] or [] if f[1] == "error" and "nterminated comment" in f[2]]
+        if not hit or not any(r[0] == line and r[1] == col for f in hit for r in f[3]):
+            problems.append({"relation": "a `/*` inside a string literal that no `*/` follows is an unclosed comment, reported at "
+                                         "its opener (%d:%d)" % (line, col),
+                             "left": "str", "left_text": text, "left_findings": proj(res["str"], 2)})
+    for k, r in res.items():
+        if r["panic"] or r["findings"] is None:
+            problems.append({"relation": "the tool ran to completion and wrote its SARIF file", "left": k, "left_text": runs[k],
+                             "left_findings": proj(r, 2)})
+    return {"idx": idx, "problems": problems, "runs": len(runs), "line": sl,
+            "parsed": not any(f[1] == "error" for f in res["str"]["findings"] or [])}
+
+
+# --------------------------------------------------------------------------
+# parse entry point: sources with the same lexer image give the same AST
+# --------------------------------------------------------------------------
+
+def entry_sources(rng, n_templates, n_streams):
+    """Sources for the parse-entry comparison: complete generated templates with
+    comments of every shape (incl. the code-like payloads and the string lines)
+    between tokens and at line ends, a share of them ending inside a block
+    comment, and token streams (mostly syntax errors: the error and its position
+    must agree too)."""
+    out = []
+    shapes = BLOCK_SHAPES + MULTILINE_SHAPES
+    for k in range(n_templates):
+        lines = gen_template(rng, k)
+        between, eol = {}, {}
+        dens = rng.choice([0.05, 0.2, 0.5])
+        for i, toks in enumerate(lines):
+            for j in range(len(toks)):
+                if rng.random() < dens:
+                    between[(i, j)] = rng.choice(shapes)
+            if rng.random() < dens:
+                eol[i] = rng.choice(LINE_SHAPES + BLOCK_SHAPES)
+        text = render(lines, between=between, eol=eol)
+        r = rng.random()
+        if r < 0.3:
+            text = rng.choice(PAYLOAD_BLOCK + PAYLOAD_LINE[:1] + ["/** doc **/", "/***/"]) + \
+                (" " if rng.random() < 0.5 else "\n") + text
+        if rng.random() < 0.2:
+            at = rng.randrange(1, len(lines))
+            parts = text.split("\n")
+            parts.insert(min(at, len(parts) - 1), rng.choice(STRING_LINES))
+            text = "\n".join(parts)
+        r = rng.random()
+        if r < 0.15:
+            text += rng.choice(["// end", "//", "/* end */", "/**/", "/***/", "// pragma circom 9.9.9;"])
+        elif r < 0.25:
+            text += rng.choice(["/* abc", "/*", "/** doc **", "/*/", "/* é\n more", "/* component main = X();"])
+        out.append(text)
+    for k in range(n_streams):
+        n = rng.randrange(3, 60)
+        start = rng.randrange(0, len(PROGRAM_TOKENS))
+        parts = []
+        for j in range(n):
+            parts.append(PROGRAM_TOKENS[(start + j) % len(PROGRAM_TOKENS)])
+            r = rng.random()
+            if r < 0.25:
+                parts.append(rng.choice(shapes))
+            elif r < 0.35:
+                parts.append(rng.choice(LINE_SHAPES) + "\n")
+            elif r < 0.37:
+                parts.append(rng.choice(["/*", "/* **", "/*/", "*/", "*", "/"]))
+        out.append(" ".join(parts))
+    return out
+
+
+UNTERMINATED_HEX = "x" + "Unterminated comment.".encode().hex()
+
+
+def parse_entry(ctx, harness, model, n_templates, n_streams):
+    """`parser::verif::parse_source` (= parser_logic::parse_file) on s, on s with
+    its comments blanked (computed by the extracted reference side:
+    LexSpec.blank_comments) and on s with its comment interiors overwritten by
+    code-like text: the three have the same lexer image (checked with the
+    extracted lex_spec, it is the hypothesis of C05_parse_file_sees_only_lexed_text),
+    so the complete answers — AST with every Meta, or error report with its
+    label ranges — must be identical.  When the image is an error, the answer
+    must be the unclosed-comment report on the range the reference lexer gives."""
+    rng = ctx.rng
+    texts = [t for t in entry_sources(rng, n_templates, n_streams) if not has_surrogate(t)]
+    over = [overwrite_comments(t, rng) for t in texts]
+    lines = [line_of(t) for t in texts]
+    olines = [line_of(t) for t in over]
+    blines = [split_res(b)[1][3:] for b in common.run_lines(model, ["blank"], lines, shards=common.NPROC)]
+    spec = [split_res(x)[1] for x in common.run_lines(model, ["spec"], lines, shards=common.NPROC)]
+    spec_o = [split_res(x)[1] for x in common.run_lines(model, ["spec"], olines, shards=common.NPROC)]
+    spec_b = [split_res(x)[1] for x in common.run_lines(model, ["spec"], blines, shards=common.NPROC)]
+    ast = [split_res(x)[1] for x in common.run_lines(harness, ["ast"], lines, shards=common.NPROC)]
+    ast_o = [split_res(x)[1] for x in common.run_lines(harness, ["ast"], olines, shards=common.NPROC)]
+    ast_b = [split_res(x)[1] for x in common.run_lines(harness, ["ast"], blines, shards=common.NPROC)]
+    problems, machinery = [], []
+    stats = {"sources": len(texts), "parsed": 0, "parsed_with_comment": 0, "syntax_error": 0, "unclosed": 0, "panic": 0,
+             "overwritten_differs": 0, "blanked_differs": 0, "with_version": 0, "with_main": 0, "with_include": 0}
+    for i, t in enumerate(texts):
+        if spec_o[i] != spec[i]:
+            machinery.append({"what": "overwrite_comments changed the lexer image", "text": t, "variant": over[i]})
+            continue
+        if spec[i].startswith("ok") and spec_b[i] != spec[i]:
+            machinery.append({"what": "blank_comments changed the lexer image (contradicts lex_blank_invariant)", "text": t})
+            continue
+        has_comment = bool(py_comments(t))
+        if over[i] != t:
+            stats["overwritten_differs"] += 1
+        if blines[i] != lines[i]:
+            stats["blanked_differs"] += 1
+        if ast[i].startswith("ast"):
+            stats["parsed"] += 1
+            stats["parsed_with_comment"] += 1 if has_comment else 0
+            stats["with_version"] += 1 if "(version " in ast[i] else 0
+            stats["with_main"] += 1 if "(main " in ast[i] else 0
+            stats["with_include"] += 1 if "(inc " in ast[i] else 0
+        elif ast[i].startswith("panic"):
+            stats["panic"] += 1
+        elif spec[i].startswith("err"):
+            stats["unclosed"] += 1
+        else:
+            stats["syntax_error"] += 1
+        for other, oa, name in ((over[i], ast_o[i], "its comments overwritten with code-like text"),
+                                (text_of(blines[i]), ast_b[i], "its comments replaced by blanks")):
+            if oa != ast[i] and len(problems) < 20:
+                problems.append({"relation": "parse entry point: a source and the same source with %s (same comment-lexer image) "
+                                             "give the same AST / the same error" % name,
+                                 "left": "source", "right": "variant", "left_text": t, "right_text": other,
+                                 "left_findings": ast[i][:1500], "right_findings": oa[:1500]})
+        if spec[i].startswith("err"):
+            f = spec[i].split()
+            want = "(p %s %s 0 " % (f[1], f[2])
+            if not (ast[i].startswith("error (report error ") and UNTERMINATED_HEX in ast[i] and want in ast[i]) and len(problems) < 20:
+                problems.append({"relation": "parse entry point: a source that ends inside a block comment is answered with the "
+                                             "unclosed-comment error on the bytes %s..%s of its opener" % (f[1], f[2]),
+                                 "left": "source", "left_text": t, "left_findings": ast[i][:1500]})
+    sample = next((a for a, t in zip(ast, texts) if a.startswith("ast") and py_comments(t)), ast[0] if ast else "")
+    return problems, machinery, stats, sample[:400]
 
 
 # --------------------------------------------------------------------------
@@ -524,7 +810,15 @@ def run(ctx, proofs):
     with concurrent.futures.ThreadPoolExecutor(max_workers=common.NPROC) as ex:
         e2e = list(ex.map(lambda iv: e2e_case(cli, ctx.work, iv[1], iv[0]), enumerate(seeds)))
     unclosed = [e2e_unclosed(cli, ctx.work, ctx.rng, i) for i in range(20 if quick else 60)]
-    e2e_problems = [p for r in e2e + unclosed for p in r["problems"]]
+    sseeds = [ctx.rng.randrange(1 << 30) for _ in range(2 * len(STRING_LINES) if quick else 6 * len(STRING_LINES))]
+    with concurrent.futures.ThreadPoolExecutor(max_workers=common.NPROC) as ex:
+        strings = list(ex.map(lambda iv: e2e_strings(cli, ctx.work, iv[1], iv[0]), enumerate(sseeds)))
+    e2e_problems = [p for r in e2e + unclosed + strings for p in r["problems"]]
+
+    # parse entry point (AST level)
+    entry_problems, entry_machinery, entry_stats, entry_sample = parse_entry(
+        ctx, harness, model, 1500 if quick else 8000, 3000 if quick else 20000)
+    e2e_problems += entry_problems
     with_findings = sum(1 for r in e2e if r["nfindings"] > 0)
     rules = sorted({x for r in e2e for x in r["rules"]})
 
@@ -538,6 +832,12 @@ def run(ctx, proofs):
     if with_findings < n_e2e * 0.9:
         ctx.violation("generator degenerate: only %d of %d templates produce findings" % (with_findings, n_e2e),
                       {"broken": "C05 e2e generator"}, no_input=True)
+    if entry_machinery:
+        ctx.violation("C05 machinery: %s (%d cases)" % (entry_machinery[0]["what"], len(entry_machinery)),
+                      {"broken": "C05 parse-entry variant generator", "first": entry_machinery[0]}, no_input=True)
+    if entry_stats["parsed_with_comment"] < 0.25 * entry_stats["sources"]:
+        ctx.violation("generator degenerate: only %d of %d parse-entry sources parse and contain a comment"
+                      % (entry_stats["parsed_with_comment"], entry_stats["sources"]), {"broken": "C05 parse-entry generator"}, no_input=True)
     if not failing and not e2e_problems:
         if disagreements:
             d = disagreements[0]
@@ -575,17 +875,33 @@ def run(ctx, proofs):
         "disagreements_model_vs_impl": len(disagreements),
         "spec_failures": len(failing),
         "differing_chunks": badchunks,
-        "e2e_templates": n_e2e, "e2e_cli_runs": sum(r["runs"] for r in e2e) + len(unclosed),
+        "e2e_templates": n_e2e, "e2e_cli_runs": sum(r["runs"] for r in e2e) + len(unclosed) + sum(r["runs"] for r in strings),
         "e2e_templates_with_findings": with_findings, "e2e_rules_seen": rules,
         "e2e_findings_per_template_avg": round(sum(r["nfindings"] for r in e2e) / max(1, n_e2e), 2),
         "e2e_unclosed_cases": len(unclosed), "e2e_problems": len(e2e_problems),
+        "e2e_payloads": [{"comment_text": t, "must_hold": "findings(F) == findings(F with the comment blanked) == findings(F "
+                          "without it), positions included; i.e. " + why} for t, why in PAYLOADS],
+        "e2e_payload_shapes": PAYLOAD_BLOCK + PAYLOAD_LINE, "e2e_star_shapes": STAR_SHAPES,
+        "e2e_string_literal_cases": len(strings), "e2e_string_literal_lines": STRING_LINES,
+        "e2e_string_literal_cases_that_parse": sum(1 for r in strings if r["parsed"]),
+        "parse_entry": entry_stats, "parse_entry_sample": entry_sample, "parse_entry_problems": len(entry_problems),
+        "parse_entry_rule": "parser::verif::parse_source (= parser_logic::parse_file) run on each source, on the source with its "
+                            "comments blanked (LexSpec.blank_comments, extracted) and on the source with its comment interiors "
+                            "overwritten by code-like text; equal lex_spec images checked with the extracted lexer; the complete "
+                            "answers (AST incl. every Meta start/end/location/file id, version, includes, main component; or the "
+                            "report with id, message, label ranges) must be identical; a source is counted in parsed_with_comment "
+                            "when it contains at least one comment and parses",
         "open_statements": [],
     })
     ctx.assumptions += [
         "the mirror Model.Preprocess.preprocess is the Rust function: observed (exhaustive up to length %d over 6 symbols + random), not proved" % maxlen,
         "`str::chars`, `char_indices`, `char::len_utf8`, `String::push` behave as list traversal, prefix sums of UTF-8 lengths and append",
         "the rest of the pipeline reads only the pre-processed text and resolves positions against the original file: observed end to end "
-        "(metamorphic runs of the CLI on %d generated templates), not proved" % n_e2e,
+        "(metamorphic runs of the CLI on %d generated templates, comments with code-like content on every line), not proved" % n_e2e,
+        "parser_logic.rs parse_file / parse_string have the data flow of Model.ParseEntry (the generated parser gets the output of "
+        "preprocess and nothing else; an unclosed comment returns before the parser runs): observed through the verif hook "
+        "parse_source on %d sources (same lexer image => identical AST dump / error report), not proved; the LALRPOP parser itself "
+        "is a parameter of the theorems" % entry_stats["sources"],
         "string literals are not special for the comment lexer (modelling decision recorded in DESIGN §4 C05; matches the code)",
     ]
 
@@ -608,6 +924,24 @@ def replay(ctx, rep):
         print("with comments blanked:", outb[0])
         same_blank = split_res(outb[0])[1] == res
         return 0 if out[0] == spec[0] and not why and same_blank else 1
+    if rep.get("e2e") and rep["e2e"].get("relation", "").startswith("parse entry point"):
+        p = rep["e2e"]
+        a = split_res(common.run_lines(harness, ["ast"], [line_of(p["left_text"])])[0])[1]
+        sa = split_res(common.run_lines(model, ["spec"], [line_of(p["left_text"])])[0])[1]
+        print("relation:", p["relation"])
+        print("source :", repr(p["left_text"]))
+        print("  lexer image:", sa[:300])
+        print("  answer     :", a[:1500])
+        if "right_text" in p:
+            b = split_res(common.run_lines(harness, ["ast"], [line_of(p["right_text"])])[0])[1]
+            sb = split_res(common.run_lines(model, ["spec"], [line_of(p["right_text"])])[0])[1]
+            print("variant:", repr(p["right_text"]))
+            print("  lexer image:", sb[:300], "(same)" if sa == sb else "(DIFFERENT: not an instance of the relation)")
+            print("  answer     :", b[:1500])
+            return 0 if a == b else 1
+        f = sa.split()
+        ok = sa.startswith("err") and a.startswith("error (report error ") and UNTERMINATED_HEX in a and ("(p %s %s 0 " % (f[1], f[2])) in a
+        return 0 if ok else 1
     if rep.get("e2e"):
         cli = common.build_cli()
         p = rep["e2e"]
